@@ -148,7 +148,8 @@ def run(tier, seed):
     configs = [c for c in sorted(host_configs()) if c != "default"]
     jobs = []
     for n, tid in enumerate(tids):
-        for c in (configs if thorough else [configs[n % len(configs)]]):
+        rot = [c for c in configs if c != "full"]
+        for c in (configs if thorough else ["full", rot[n % len(rot)]]):
             env = dict(pool[rng.randrange(len(pool))], config=c)
             steps = [{"op": "req", "t": tid}]
             jobs.append({"kind": "c19", "seed": seed, "run": f"config-{c}-{tid}", "env": env,
